@@ -4,4 +4,205 @@
 #include "main.h"
 using namespace IMATH_INTERNAL_NAMESPACE;
 #include "ops_c04.h"
-int main (int argc, char** argv) { return symns::sym_main (argc, argv); }
+
+// ---------------------------------------------------------------------------------------------------
+// `showcheck <seed>`: the last clause of C04 run end to end on the REAL element types (no Sym involved):
+// for every aggregate type x {short, int, int64, half, float, double} x three stream states, a value with
+// pairwise distinct components is printed through the real operator<<; the text is tokenised on whitespace and
+// parentheses (the same separators as Spec/ShowSpec.lean `isSep`) and must give exactly one token per component,
+// in declaration order (matrices row-major), each equal to what `os << component` prints in the stream state in
+// force when that component is printed: for vectors, colours, shears and quaternions that is the caller's state
+// (checked: the extracted text records no change of flags / precision), for matrices the caller's state as modified
+// by the matrix operator (scientific unless fixed, showpoint) -- the flags and precision recorded per element in the
+// extracted text `Gen.<Ty>.show*`, i.e. exactly the `t i w flags prec` of Show.showOK_tokens.  Also checked: every component's printed form is a proper token (the hypothesis `Hyg` of
+// Show.showOK_tokens: non-empty, no separator character), one pair of parentheses, vectors on one line with
+// single spaces, matrices one row per line, and the caller's stream state is restored.
+// unsigned char is reported separately (it prints raw characters: outside the property's "non-character" claim).
+namespace showcheck
+{
+static long cases = 0, fails = 0, tokensSeen = 0, ucharCases = 0, ucharNonHyg = 0;
+static bool isSep (char ch) { return ch == ' ' || ch == '\n' || ch == '\t' || ch == '\r' || ch == '(' || ch == ')'; }
+static std::vector<std::string> tokens (const std::string& s)
+{
+    std::vector<std::string> out;
+    std::string cur;
+    for (char ch : s)
+    {
+        if (isSep (ch)) { if (!cur.empty ()) out.push_back (cur); cur.clear (); }
+        else cur += ch;
+    }
+    if (!cur.empty ()) out.push_back (cur);
+    return out;
+}
+static void setState (std::ostream& os, int st)
+{
+    if (st == 1) os << std::fixed << std::setprecision (3);
+    if (st == 2) os << std::scientific << std::setprecision (9);
+}
+static std::string esc (const std::string& s)
+{
+    std::string o;
+    for (unsigned char ch : s) { if (ch == '\n') o += "\\n"; else if (ch < 32 || ch > 126) { char b[8]; snprintf (b, 8, "\\x%02x", ch); o += b; } else o += (char) ch; }
+    return o;
+}
+template <class T> static T pick (std::mt19937_64& g, int i, int variant)
+{
+    // pairwise distinct components: distinct integer parts i+1, sign / fraction / magnitude varied
+    if (std::numeric_limits<T>::is_integer)
+    {
+        long v = (long) (i + 1) * (variant == 2 ? 1009 : variant == 1 ? 13 : 1) + (variant ? (long) (g () % 7) : 0);
+        if (sizeof (T) == 1) return (T) (33 + (v % 90)); // printable for the uchar report
+        if (sizeof (T) == 2) v %= 30000;
+        return (T) ((std::numeric_limits<T>::is_signed && (g () & 1) && variant) ? -v : v);
+    }
+    static const double scale[] = {1.0, 0.001, 1000.0, 1e-7, 12345.678};
+    double v = (double) (i + 1) + (variant ? 0.0625 * (double) (g () % 16) : 0.0);
+    v *= scale[variant ? g () % 5 : 0];
+    if (variant && (g () & 1)) v = -v;
+    if (variant == 3 && i == 0) v = std::numeric_limits<double>::infinity ();
+    if (variant == 3 && i == 1) v = -0.0;
+    return symns::fromDouble<T> (v);
+}
+// per extracted show entry: (slot, flags, precision) of every element token, in order of appearance
+static std::map<std::string, std::vector<symns::TextSeg>>& recorded () { static std::map<std::string, std::vector<symns::TextSeg>> m; return m; }
+static void loadRecorded ()
+{
+    for (auto& e : symns::entries ())
+    {
+        if (e.module != "C04Show" || e.name.find (".show") == std::string::npos || e.name.find ("Keeps") != std::string::npos) continue;
+        symns::FnRecord* r = symns::explore (e);
+        std::vector<symns::TextSeg> toks;
+        if (r->status == "ok" && r->paths.size () == 1 && r->paths[0].leaf.strs.size () == 1)
+            for (auto& t : symns::parseText (r->paths[0].leaf.strs[0]))
+                if (t.tok)
+                {
+                    long k = 0, slot = -1;
+                    for (auto& p : r->params) for (auto* v : p.vars) { if (v->id == t.node) slot = k; ++k; }
+                    t.node = (int) slot;
+                    toks.push_back (t);
+                }
+        recorded ()[e.name] = toks;
+    }
+}
+template <class G, class T> static void one (const char* ty, const char* lean, const char* el, int rows, std::mt19937_64& g, int st, int variant, bool isChar)
+{
+    G                a{};
+    std::vector<T*> ptrs;
+    symns::Agg<G>::flat (a, ptrs);
+    for (size_t i = 0; i < ptrs.size (); ++i) *ptrs[i] = pick<T> (g, (int) i, variant);
+    std::ostringstream os;
+    setState (os, st);
+    auto fl = os.flags (); auto pr = os.precision (); auto fi = os.fill ();
+    os << a;
+    bool        kept = os.flags () == fl && os.precision () == pr && os.fill () == fi && os.width () == 0;
+    std::string text = os.str ();
+    std::vector<std::string> want;
+    bool hyg = true, stateOK = true;
+    const auto& rec = recorded ()[std::string (lean) + (st == 0 ? ".show" : st == 1 ? ".showFixed" : ".showSci")];
+    if (rec.size () != ptrs.size ()) stateOK = false;
+    for (size_t i = 0; i < ptrs.size (); ++i)
+    {
+        std::ostringstream o;
+        setState (o, st);
+        if (i < rec.size ())
+        {
+            // one-line types: the element is printed in the caller's state; matrices: in the state the operator sets
+            if (rows == 1 && ((std::ios_base::fmtflags) rec[i].flags != o.flags () || rec[i].prec != (long) o.precision ())) stateOK = false;
+            if (rec[i].node != (long) i) stateOK = false;
+            o.flags ((std::ios_base::fmtflags) rec[i].flags);
+            o.precision (rec[i].prec);
+        }
+        o << *ptrs[i];
+        want.push_back (o.str ());
+        if (o.str ().empty ()) hyg = false;
+        for (char ch : o.str ()) if (isSep (ch)) hyg = false;
+    }
+    if (isChar) { ++ucharCases; if (!hyg) ++ucharNonHyg; return; }
+    ++cases;
+    auto got = tokens (text);
+    tokensSeen += (long) got.size ();
+    std::string why;
+    if (!stateOK) why = "the extracted text does not print slot i as the i-th element in the caller's stream state (vectors) / has the wrong number of elements";
+    else if (!hyg) why = "a component's own printed form is not a proper token";
+    else if (got != want) why = got.size () != want.size () ? "token count differs from the number of components" : "a token differs from the component's own printed form";
+    else if (!kept) why = "the stream's flags / precision / fill / width are not restored";
+    else
+    {
+        // layout: one pair of parentheses, `rows` lines of components, single spaces between vector components
+        long open = 0, close = 0, nl = 0;
+        for (char ch : text) { open += ch == '('; close += ch == ')'; nl += ch == '\n'; }
+        if (open != 1 || close != 1 || text.empty () || text[0] != '(') why = "not exactly one pair of parentheses";
+        else if (rows == 1)
+        {
+            std::string exp = "(";
+            for (size_t i = 0; i < want.size (); ++i) exp += (i ? " " : "") + want[i];
+            if (text != exp + ")") why = "vector layout is not `(c0 c1 ... cN)` with single spaces";
+        }
+        else if (nl != rows) why = "matrix does not print one row per line";
+        else
+        {
+            // every line holds exactly `rows` tokens
+            std::istringstream is (text);
+            std::string ln;
+            while (std::getline (is, ln)) if ((long) tokens (ln).size () != rows) why = "a matrix line does not hold exactly one row";
+        }
+    }
+    if (!why.empty ())
+    {
+        ++fails;
+        std::string w;
+        for (auto& x : want) w += "[" + esc (x) + "]";
+        std::string t;
+        for (auto& x : got) t += "[" + esc (x) + "]";
+        printf ("SHOW-FAIL %s<%s> state=%d :: %s :: text=%s :: tokens=%s :: components_printed_alone=%s\n", ty, el, st, why.c_str (), esc (text).c_str (), t.c_str (), w.c_str ());
+    }
+}
+template <class T> static void all (const char* el, std::mt19937_64& g, bool isChar = false)
+{
+    for (int st = 0; st < 3; ++st)
+        for (int variant = 0; variant < 4; ++variant)
+        {
+            one<Vec2<T>, T> ("Vec2", "V2", el, 1, g, st, variant, isChar); one<Vec3<T>, T> ("Vec3", "V3", el, 1, g, st, variant, isChar);
+            one<Vec4<T>, T> ("Vec4", "V4", el, 1, g, st, variant, isChar); one<Color3<T>, T> ("Color3", "C3", el, 1, g, st, variant, isChar);
+            one<Color4<T>, T> ("Color4", "C4", el, 1, g, st, variant, isChar); one<Shear6<T>, T> ("Shear6", "Shear6", el, 1, g, st, variant, isChar);
+            one<Quat<T>, T> ("Quat", "Quat", el, 1, g, st, variant, isChar); one<Matrix22<T>, T> ("Matrix22", "M22", el, 2, g, st, variant, isChar);
+            one<Matrix33<T>, T> ("Matrix33", "M33", el, 3, g, st, variant, isChar); one<Matrix44<T>, T> ("Matrix44", "M44", el, 4, g, st, variant, isChar);
+        }
+}
+static int run (unsigned long seed)
+{
+    std::mt19937_64 g (seed);
+    loadRecorded ();
+    all<short> ("short", g); all<int> ("int", g); all<int64_t> ("int64", g); all<half> ("half", g); all<float> ("float", g); all<double> ("double", g);
+    all<unsigned char> ("uchar", g, true);
+    printf ("SHOWCHECK cases=%ld tokens=%ld failures=%ld uchar_cases=%ld uchar_with_non_token_components=%ld\n", cases, tokensSeen, fails, ucharCases, ucharNonHyg);
+    return fails ? 1 : 0;
+}
+}
+
+int main (int argc, char** argv)
+{
+    std::string mode = argc > 1 ? argv[1] : "list";
+    if (mode == "showcheck") return showcheck::run (argc > 2 ? strtoul (argv[2], 0, 10) : 1);
+    int rc = symns::sym_main (argc, argv);
+    if (mode == "tv")
+    {
+        // hit counts of the special generators (equalWith*, division, conversions): one line, parsed by tools/props/c04.py
+        for (auto& kv : symns::eqerrLeafCount ())
+        {
+            ++symns::c04stats ()["eqerr.entries"];
+            if (symns::eqerrLeaves ()[kv.first].size () == kv.second) ++symns::c04stats ()["eqerr.entries_with_every_leaf_reached"];
+            else printf ("C04-EQERR-LEAVES %s reached=%zu of=%zu\n", kv.first.c_str (), symns::eqerrLeaves ()[kv.first].size (), kv.second);
+        }
+        printf ("C04STATS");
+        for (auto& kv : symns::c04stats ()) printf (" %s=%ld", kv.first.c_str (), kv.second);
+        printf ("\n");
+        if (const char* f = getenv ("C04_STATS_FILE"))
+            if (FILE* fp = fopen (f, "w"))
+            {
+                for (auto& kv : symns::c04stats ()) fprintf (fp, "%s=%ld\n", kv.first.c_str (), kv.second);
+                fclose (fp);
+            }
+    }
+    return rc;
+}
